@@ -121,9 +121,127 @@ def supported_encodings():
     return "Definition supported_encodings : list str :=\n  [" + "; ".join(coq_str(n) for n in names) + "].\n"
 
 
+# ---------------------------------------------------------------- serde schemas (C06)
+SERDE_TYPES = [
+    # (file, Rust name) in dependency order
+    ("src/http/header.rs", "Header"),
+    ("src/http/query.rs", "PathAndQueryWithSkipped"),
+    ("src/http/request.rs", "Request"),
+    ("src/api/header_filter.rs", "HeaderFilter"),
+    ("src/api/body_filter.rs", "TextAction"),
+    ("src/api/body_filter.rs", "TextBodyFilter"),
+    ("src/api/body_filter.rs", "HTMLBodyFilter"),
+    ("src/api/body_filter.rs", "BodyFilter"),
+    ("src/action/status_code_update.rs", "StatusCodeUpdate"),
+    ("src/action/log_override.rs", "LogOverride"),
+    ("src/action/mod.rs", "RuleTrace"),
+    ("src/action/mod.rs", "HeaderFilterAction"),
+    ("src/action/mod.rs", "BodyFilterAction"),
+    ("src/action/mod.rs", "Action"),
+]
+SERDE_PRIM = {"String": "TStr", "u16": "TU16", "bool": "TBool", "IpAddr": "TOpaque", "DateTime<Utc>": "TOpaque",
+              "LinkedHashSet<String>": "TSet"}
+
+
+def serde_type(t, known):
+    t = t.strip()
+    if t in SERDE_PRIM:
+        return SERDE_PRIM[t]
+    m = re.fullmatch(r"Option<(.+)>", t)
+    if m:
+        return "(TOpt " + serde_type(m.group(1), known) + ")"
+    m = re.fullmatch(r"Vec<(.+)>", t)
+    if m:
+        return "(TVec " + serde_type(m.group(1), known) + ")"
+    if t in known:
+        return "schema_" + t
+    raise TranslatorError(f"serde: unsupported field type {t!r}")
+
+
+def serde_attr(line, allowed):
+    """`#[serde(a, b = "c")]` -> dict; anything outside `allowed` is an error."""
+    m = re.fullmatch(r"#\[serde\((.*)\)\]", line)
+    if not m:
+        raise TranslatorError(f"serde: unexpected attribute {line!r}")
+    out = {}
+    for part in [p.strip() for p in m.group(1).split(",") if p.strip()]:
+        mm = re.fullmatch(r'([a-z_]+)(?:\s*=\s*"((?:[^"\\]|\\.)*)")?', part)
+        if not mm or mm.group(1) not in allowed:
+            raise TranslatorError(f"serde: unsupported attribute {part!r} in {line!r}")
+        out[mm.group(1)] = mm.group(2)
+    return out
+
+
+def serde_decl(src, rel, name):
+    m = re.search(r"((?:^[ \t]*#\[[^\n]*\]\n)+)^(?:pub(?:\([a-z]+\))? )?(struct|enum) " + re.escape(name) + r" \{\n(.*?)^\}\n", src, re.S | re.M)
+    if not m:
+        raise TranslatorError(f"serde: declaration of {name} not found in {rel}")
+    attrs = [a.strip() for a in m.group(1).strip().split("\n")]
+    derive = [a for a in attrs if a.startswith("#[derive(")]
+    if len(derive) != 1 or not re.search(r"\bSerialize\b", derive[0]) or not re.search(r"\bDeserialize\b", derive[0]):
+        raise TranslatorError(f"serde: {name} must derive both Serialize and Deserialize: {attrs}")
+    container = {}
+    for a in attrs:
+        if a.startswith("#[serde("):
+            container.update(serde_attr(a, {"untagged"}))
+        elif not a.startswith("#[derive("):
+            raise TranslatorError(f"serde: unexpected container attribute {a!r} on {name}")
+    return m.group(2), container, [l.strip() for l in m.group(3).split("\n") if l.strip()]
+
+
+def serde_schemas():
+    known = []
+    out = []
+    for rel, name in SERDE_TYPES:
+        kind, container, lines = serde_decl(read(rel), rel, name)
+        pending = {}
+        items = []
+        for l in lines:
+            if l.startswith("//"):
+                continue
+            if l.startswith("#["):
+                pending.update(serde_attr(l, {"rename", "default"}))
+                continue
+            if kind == "struct":
+                mm = re.fullmatch(r"(?:pub(?:\([a-z]+\))? )?([a-z_][a-z0-9_]*): (.+),", l)
+                if not mm:
+                    raise TranslatorError(f"serde: unexpected line in struct {name}: {l!r}")
+                if "default" in pending and pending["default"] is not None:
+                    raise TranslatorError(f"serde: default = \"fn\" is not supported ({name}.{mm.group(1)})")
+                ser_name = pending["rename"] if pending.get("rename") is not None else mm.group(1)
+                items.append(f"Field {coq_str(unescape_rust(ser_name))} {'true' if 'default' in pending else 'false'} {serde_type(mm.group(2), known)}")
+            else:
+                if "untagged" in container:
+                    mm = re.fullmatch(r"([A-Za-z0-9_]+)\(([A-Za-z0-9_]+)\),", l)
+                    if not mm or pending:
+                        raise TranslatorError(f"serde: unexpected variant in untagged enum {name}: {l!r}")
+                    items.append(serde_type(mm.group(2), known))
+                else:
+                    mm = re.fullmatch(r"([A-Za-z0-9_]+),", l)
+                    if not mm or "default" in pending:
+                        raise TranslatorError(f"serde: unexpected variant in enum {name}: {l!r}")
+                    ser_name = pending["rename"] if pending.get("rename") is not None else mm.group(1)
+                    items.append(coq_str(unescape_rust(ser_name)))
+            pending = {}
+        if pending:
+            raise TranslatorError(f"serde: dangling attribute in {name}")
+        if kind == "struct":
+            if container:
+                raise TranslatorError(f"serde: container attributes on struct {name} are not supported: {container}")
+            body = "TStruct [" + ";\n    ".join(items) + "]"
+        elif "untagged" in container:
+            body = "TUntagged [" + "; ".join(items) + "]"
+        else:
+            body = "TUnitEnum [" + "; ".join(items) + "]"
+        out.append(f"Definition schema_{name} : ty :=\n  {body}.\n")
+        known.append(name)
+    return "\n".join(out)
+
+
 SECTIONS = [
     ("Headers", ["RIO.Headers"], header_action_table),
     ("Encodings", [], supported_encodings),
+    ("Serde", ["RIO.Json"], serde_schemas),
 ]
 
 
